@@ -78,9 +78,10 @@ theorem disjoint_spec {a b : List Var} (h : disjoint a b = true) : ∀ x ∈ a, 
   intro x hx; simp only [disjoint, List.all_eq_true] at h; simpa using h x hx
 
 theorem sib_spec {l r : Expr} (h : sib l r = true) (hl : lifts r = true) :
-    resCalls l = false ∧ ∀ x ∈ resReads l, x ∉ writes r := by
-  simp only [sib, hl, Bool.not_true, Bool.false_or, Bool.and_eq_true, Bool.not_eq_eq_eq_not] at h
-  exact ⟨by simpa using h.1, disjoint_spec h.2⟩
+    (resCalls l = false ∨ anyCall r = false) ∧ ∀ x ∈ resReads l, x ∉ writes r := by
+  simp only [sib, hl, Bool.not_true, Bool.false_or, Bool.and_eq_true, Bool.or_eq_true,
+    Bool.not_eq_eq_eq_not] at h
+  exact ⟨h.1, disjoint_spec h.2⟩
 
 theorem sib_reads {l r : Expr} (h : sib l r = true) : ∀ x ∈ resReads l, x ∉ writes r := by
   cases hl : lifts r with
@@ -344,29 +345,68 @@ theorem sem_bi {env : Env} (o : BiOp) {l r : Expr} (ihl : SemE env l) (ihr : Sem
       exact this
   | true =>
     obtain ⟨hrc, hrd⟩ := sib_spec hs.2 hlr
-    have hnc : anyCall (bld l .val b σ).1 = false := by rw [res.2.1]; exact hrc
-    have htr : (eval env l s).2.2 = sA.2 := by
-      have := eval_trace_of_no_call env _ hnc sA
-      rw [hevA] at this; exact this
     obtain ⟨sC, hstC, hevC, hagC, htmC⟩ := ihr .val _ _ bl hu.2 hs.1.2 ga.lt ga.opn hx sA rv
-    have hsA : sA = (sA.1, (eval env l s).2.2) := by rw [htr]
-    rw [← hsA] at hcg
-    have hpure : eval env (bld l .val b σ).1 sC = ((eval env l s).1, sC) := by
-      have := eval_pure env _ res.1 hnc sC sA (by
-        intro x hx
-        rcases res.2.2 x hx with h | ⟨k, rfl, hk⟩
-        · obtain ⟨u, rfl⟩ := resReads_user l hu.1 x h
-          rw [hagC u]; exact eval_writes env r sA _ (hrd _ h)
-        · exact htmC k hk)
-      rw [this, hevA]
-    refine ⟨sC, hstA.trans hstC, ?_, ?_, ?_⟩
-    · simp only [eval, hpure, hevC]
-      rw [hcg.1, hcg.2.1]
-      exact applyBi_swap env o _ _ _ _ _
-    · simp only [eval, applyBi_store]
-      exact hagC.trans hcg.2.2
-    · intro k hk
-      rw [htmC k (Nat.lt_of_lt_of_le hk ga.touch.tmp)]; exact htmA k hk
+    -- the residual of `l` reads nothing that the hoisted part of `r` changes
+    have hvars : ∀ x ∈ vars (bld l .val b σ).1, sC.1 x = sA.1 x := by
+      intro x hx
+      rcases res.2.2 x hx with h | ⟨k, rfl, hk⟩
+      · obtain ⟨u, rfl⟩ := resReads_user l hu.1 x h
+        rw [hagC u]; exact eval_writes env r sA _ (hrd _ h)
+      · exact htmC k hk
+    rcases hrc with hrc | hrc
+    · -- the residual of `l` is pure
+      have hnc : anyCall (bld l .val b σ).1 = false := by rw [res.2.1]; exact hrc
+      have htr : (eval env l s).2.2 = sA.2 := by
+        have := eval_trace_of_no_call env _ hnc sA
+        rw [hevA] at this; exact this
+      have hsA : sA = (sA.1, (eval env l s).2.2) := by rw [htr]
+      rw [← hsA] at hcg
+      have hpure : eval env (bld l .val b σ).1 sC = ((eval env l s).1, sC) := by
+        have := eval_pure env _ res.1 hnc sC sA hvars
+        rw [this, hevA]
+      refine ⟨sC, hstA.trans hstC, ?_, ?_, ?_⟩
+      · simp only [eval, hpure, hevC]
+        rw [hcg.1, hcg.2.1]
+        exact applyBi_swap env o _ _ _ _ _
+      · simp only [eval, applyBi_store]
+        exact hagC.trans hcg.2.2
+      · intro k hk
+        rw [htmC k (Nat.lt_of_lt_of_le hk ga.touch.tmp)]; exact htmA k hk
+    · -- `r` makes no call at all: hoisting it is unobservable
+      have hrr : anyCall (bld r .val (bld l .val b σ).2.1 (bld l .val b σ).2.2).1 = false := by
+        rw [(bld_residual r _ _ ga.lt ga.opn).2.1]; exact anyCall_of_resCalls r hrc
+      have hlr' : lifts (bld r .val (bld l .val b σ).2.1 (bld l .val b σ).2.2).1 = false :=
+        (bld_residual r _ _ ga.lt ga.opn).1
+      -- the hoisted part of `r` left the trace alone
+      have htC : sC.2 = sA.2 := by
+        have h1 := eval_trace_of_no_call env _ hrr sC
+        rw [hevC] at h1
+        have h2 := eval_trace_of_no_call env r hrc sA
+        simp only at h1
+        rw [← h1, h2]
+      have hl' : eval env (bld l .val b σ).1 sC = ((eval env l s).1, (sC.1, (eval env l s).2.2)) := by
+        rw [eval_resid_congr env _ res.1 sC sA hvars htC, hevA]
+      -- `r` from Python's state and from the CFG's state
+      have hi := eval_nocall_indep env r hrc sA.1 sA.2 (eval env l s).2.2
+      have hrA : (eval env r sA).1 = (eval env r (eval env l s).2).1 := by
+        have : eval env r sA = eval env r (sA.1, sA.2) := rfl
+        rw [this, hi.1, hcg.1]
+      have hrS : agreeU (eval env r sA).2.1 (eval env r (eval env l s).2).2.1 := by
+        have : eval env r sA = eval env r (sA.1, sA.2) := rfl
+        rw [this, hi.2]; exact hcg.2.2
+      have hrT : (eval env r (eval env l s).2).2.2 = (eval env l s).2.2 := eval_trace_of_no_call env r hrc _
+      have hr' : eval env (bld r .val (bld l .val b σ).2.1 (bld l .val b σ).2.2).1 (sC.1, (eval env l s).2.2) =
+          ((eval env r (eval env l s).2).1, (sC.1, (eval env l s).2.2)) := by
+        have := eval_pure env _ hlr' hrr (sC.1, (eval env l s).2.2) sC (fun _ _ => rfl)
+        rw [this, hevC, hrA]
+      refine ⟨sC, hstA.trans hstC, ?_, ?_, ?_⟩
+      · simp only [eval, hl', hr']
+        rw [← hrT]
+        exact applyBi_swap env o _ _ _ _ _
+      · simp only [eval, applyBi_store]
+        exact hagC.trans hrS
+      · intro k hk
+        rw [htmC k (Nat.lt_of_lt_of_le hk ga.touch.tmp)]; exact htmA k hk
 
 theorem sem_walrus {env : Env} (x : Var) {e : Expr} (ih : SemE env e) : SemE env (.walrus x e) := by
   refine sem_generic (fun t f b σ => by simp only [bld, finish]) ?_
